@@ -23,7 +23,11 @@
 EXTENDS Integers, Sequences, FiniteSets, TLC, Json, IOUtils, SequencesExt
 
 SrvA == [addr |-> "A", locs |-> <<"l1", "l2">>, cache |-> "c1", compress |-> "", minlen |-> "unset", filter |-> "unset"]
-Base == [servers |-> <<SrvA>>, l1up |-> "uA", p1 |-> "absent", best |-> "absent", caches |-> {"c1"}]
+(* ub: the backends of upstream uB: "B" (one server), "B+Ab" (B, and A as a backup), "Bb+A" (the same two addresses with the
+   backup flag on the other one) *)
+Base == [servers |-> <<SrvA>>, l1up |-> "uA", p1 |-> "absent", best |-> "absent", caches |-> {"c1"}, ub |-> "B"]
+SrvB == [SrvA EXCEPT !.addr = "B", !.locs = <<"l2">>, !.cache = "c2"]
+SrvC == [SrvA EXCEPT !.addr = "C", !.locs = <<"l2">>]
 
 K == [k1 |-> Base,
       k2 |-> [Base EXCEPT !.servers = <<[SrvA EXCEPT !.minlen = "100"]>>],
@@ -35,11 +39,18 @@ K == [k1 |-> Base,
       k8 |-> [Base EXCEPT !.servers = <<[SrvA EXCEPT !.cache = "c2"]>>, !.caches = {"c1", "c2"}],
       k9 |-> [Base EXCEPT !.best = "fast"],
       k10 |-> [Base EXCEPT !.servers = <<[SrvA EXCEPT !.locs = <<"l2">>]>>],
-      k11 |-> [Base EXCEPT !.servers = <<[SrvA EXCEPT !.compress = "p1"]>>, !.p1 = "gziponly"]]   \* the br level is left out
+      k11 |-> [Base EXCEPT !.servers = <<[SrvA EXCEPT !.compress = "p1"]>>, !.p1 = "gziponly"],   \* the br level is left out
+      k12 |-> [Base EXCEPT !.servers = <<SrvA, SrvB, SrvC>>, !.caches = {"c1", "c2"}],              \* three servers
+      k13 |-> [Base EXCEPT !.ub = "B+Ab"],
+      k14 |-> [Base EXCEPT !.ub = "Bb+A"]]
 
 Names == DOMAIN K
 Distinct2 == {p \in Names \X Names : p[1] # p[2]}
 Seqs2 == {<<p[1], p[2]>> : p \in Distinct2}
+(* sequences whose last two configurations are written in quick succession (gap in ms): the second write arrives while the
+   first is still being applied *)
+Bursts == {<<"k1", "k2", "k6">>, <<"k1", "k7", "k1">>, <<"k1", "k4", "k3">>, <<"k1", "k13", "k14">>}
+Gaps == {0, 3, 10, 30}
 Seqs3 == {<<p[1], p[2], p[1]>> : p \in Distinct2} \cup {<<a, b, c>> \in Names \X Names \X Names : a # b /\ b # c /\ a # c /\ a \in {"k7", "k4", "k9"}}
 
 -----------------------------------------------------------------------------
@@ -69,7 +80,7 @@ ApplyAll(st, ks) == IF ks = <<>> THEN st ELSE ApplyAll(Apply(st, K[Head(ks)]), T
 ObsOf(st, k) ==
   [servers |-> [a \in DOMAIN st.servers |->
                   [st.servers[a] EXCEPT !.compress = IF @ = "" THEN "default" ELSE st.profiles.p1]],
-   best |-> st.profiles.best, l1up |-> k.l1up]
+   best |-> st.profiles.best, l1up |-> k.l1up, ub |-> k.ub]
 
 LingeringBest(ks) == K[ks[Len(ks)]].best = "absent" /\ \E i \in 1..(Len(ks) - 1) : K[ks[i]].best # "absent"
 
@@ -80,25 +91,29 @@ LiveEqFresh(ks) ==
 (* entries of a cache survive iff the cache object survives every update *)
 Survives(ks, cname) == \A i \in 1..Len(ks) : cname \in K[ks[i]].caches
 
-DesignInv == \A ks \in Seqs2 \cup Seqs3 : LiveEqFresh(ks)
+DesignInv == \A ks \in Seqs2 \cup Seqs3 \cup Bursts : LiveEqFresh(ks)
 
 -----------------------------------------------------------------------------
 VARIABLE l
 
+CaseOf(q, gap) ==
+  [seq |-> q, gap |-> gap, configs |-> [j \in 1..Len(q) |-> K[q[j]]],
+   lingering |-> LingeringBest(q),
+   stableA |-> \A j \in 1..Len(q) : K[q[j]].servers[1] = K[q[1]].servers[1],
+   readd |-> \E a \in 1..Len(q), b \in 1..Len(q), c \in 1..Len(q) :
+               a < b /\ b < c /\ Len(K[q[a]].servers) = 2 /\ Len(K[q[b]].servers) = 1 /\ Len(K[q[c]].servers) = 2,
+   retained |-> Survives(q, K[q[Len(q)]].servers[1].cache) /\
+                \A j \in 1..Len(q) : K[q[j]].servers[1].cache = K[q[1]].servers[1].cache]
+
 EmitInit ==
   /\ l = 0
   /\ LET Q == SetToSeq(Seqs2 \cup (IF IOEnv.TIER = "thorough" THEN Seqs3 ELSE {s \in Seqs3 : s[1] = s[3] /\ s[1] \in {"k1", "k4", "k7", "k9"}}))
-     IN ndJsonSerialize(IOEnv.OUT, [i \in 1..Len(Q) |->
-           [seq |-> Q[i], configs |-> [j \in 1..Len(Q[i]) |-> K[Q[i][j]]],
-            lingering |-> LingeringBest(Q[i]),
-            stableA |-> \A j \in 1..Len(Q[i]) : K[Q[i][j]].servers[1] = K[Q[i][1]].servers[1],
-            readd |-> \E a \in 1..Len(Q[i]), b \in 1..Len(Q[i]), c \in 1..Len(Q[i]) :
-                        a < b /\ b < c /\ Len(K[Q[i][a]].servers) = 2 /\ Len(K[Q[i][b]].servers) = 1 /\ Len(K[Q[i][c]].servers) = 2,
-            retained |-> Survives(Q[i], K[Q[i][Len(Q[i])]].servers[1].cache) /\
-                         \A j \in 1..Len(Q[i]) : K[Q[i][j]].servers[1].cache = K[Q[i][1]].servers[1].cache]])
+         B == SetToSeq(Bursts \X Gaps)
+     IN ndJsonSerialize(IOEnv.OUT, [i \in 1..Len(Q) |-> CaseOf(Q[i], -1)] \o [i \in 1..Len(B) |-> CaseOf(B[i][1], B[i][2])])
 EmitNext == FALSE /\ l' = l
 
-(* observation: live / fresh: the probe vectors (sequences of strings) of the two processes;
+(* gap = -1: every update is awaited before the next configuration is written.
+   observation: live / fresh: the probe vectors (sequences of strings) of the two processes;
    retainedHit: an entry cached in the live instance before the updates is still a hit afterwards;
    errorsDuring: failed requests of the background client on server A while updates were applied (A is in
    every configuration of the library);  removedClosed: a removed server no longer accepts connections *)
